@@ -25,6 +25,62 @@ def traced_code_objects():
     return {getattr(f, "__func__", f).__code__ for f in fns}
 
 
+FINE_FILES = ("core/meta/code/builder.py", "core/meta/code/lines.py", "core/meta/types/common.py", "core/meta/types/pack.py",
+              "core/meta/types/unpack.py", "core/meta/helpers.py", "core/meta/mixin.py", "mixins/dict.py", "mixins/json.py",
+              "mixins/orjson.py", "mixins/msgpack.py", "mixins/yaml.py", "mixins/toml.py", "codecs/_builder.py", "codecs/basic.py",
+              "codecs/json.py", "codecs/orjson.py", "codecs/msgpack.py", "dialect.py", "helpers.py")
+_SHARED_CALLS = {"setattr", "getattr", "hasattr", "delattr", "exec", "vars"}
+
+
+def fine_lines():
+    """Lines of library source that read or publish state shared between threads, found statically: calls of setattr /
+    getattr / hasattr / delattr / exec / vars, any `.__dict__`, `__mashumaro...` or `..._cache` attribute, stores through
+    a subscript or attribute of something that is not a local `self` builder field list. Returns {filename: frozenset(lineno)}."""
+    import ast
+    import os
+    import mashumaro
+    root = os.path.dirname(mashumaro.__file__)
+    out = {}
+    for rel in FINE_FILES:
+        fn = os.path.join(root, rel)
+        if not os.path.exists(fn):
+            continue
+        tree = ast.parse(open(fn).read())
+        lines = set()
+        for node in ast.walk(tree):
+            if isinstance(node, ast.Call) and isinstance(node.func, ast.Name) and node.func.id in _SHARED_CALLS:
+                lines.add(node.lineno)
+            elif isinstance(node, ast.Attribute) and (node.attr == "__dict__" or node.attr.endswith("_cache")
+                                                      or node.attr.startswith("__mashumaro")):
+                lines.add(node.lineno)
+            elif isinstance(node, ast.Global):
+                lines.add(node.lineno)
+        # module-level mutable objects (registries, scratch buffers): every function line that names one
+        shared = set()
+        for st in tree.body:
+            tg = []
+            if isinstance(st, ast.Assign):
+                tg = [t.id for t in st.targets if isinstance(t, ast.Name)]
+                val = st.value
+            elif isinstance(st, ast.AnnAssign) and isinstance(st.target, ast.Name) and st.value is not None:
+                tg = [st.target.id]
+                val = st.value
+            else:
+                continue
+            if isinstance(val, (ast.Dict, ast.List, ast.Set, ast.ListComp, ast.DictComp)) or (
+                    isinstance(val, ast.Call) and not (isinstance(val.func, ast.Name) and val.func.id in ("TypeVar", "NewType", "namedtuple", "frozenset", "tuple"))
+                    and not (isinstance(val.func, ast.Attribute) and val.func.attr in ("TypeVar", "NewType", "compile"))):
+                shared.update(n for n in tg if not n.startswith("__") and n != "__all__")
+        if shared:
+            for fn_node in ast.walk(tree):
+                if isinstance(fn_node, (ast.FunctionDef, ast.Lambda)):
+                    for node in ast.walk(fn_node):
+                        if isinstance(node, ast.Name) and node.id in shared:
+                            lines.add(node.lineno)
+        out[fn] = frozenset(lines)
+    return out
+
+
 class Divergence(Exception):
     pass
 
@@ -36,9 +92,10 @@ class Deadlock(Exception):
 class Execution:
     """One controlled execution following `prefix` (list of (choice, signature)), then choice 0."""
 
-    def __init__(self, prefix, codes, watchdog=20.0):
+    def __init__(self, prefix, codes, watchdog=20.0, fine=None):
         self.prefix = prefix
         self.codes = codes
+        self.fine = fine
         self.trace = []      # (n_enabled, chosen index, running still enabled, signature)
         self.sems = {}
         self.done = set()
@@ -76,6 +133,7 @@ class Execution:
 
     def run(self, bodies):
         codes = self.codes
+        fine = self.fine
 
         def mk(tid, body):
             def local(frame, event, arg):
@@ -83,12 +141,19 @@ class Execution:
                     self.point(tid, (tid, _HEX.sub("#", frame.f_code.co_name), frame.f_lineno))
                 return local
 
+            def flocal(frame, event, arg):
+                if event == "line" and frame.f_lineno in fine[frame.f_code.co_filename]:
+                    self.point(tid, (tid, frame.f_code.co_name, frame.f_lineno))
+                return flocal
+
             def tracer(frame, event, arg):
                 code = frame.f_code
                 if code.co_filename == "<string>":
                     return local
                 if code in codes:
                     self.point(tid, (tid, code.co_name, 0))
+                if fine is not None and code.co_filename in fine:
+                    return flocal
                 return None
 
             def target():
@@ -133,7 +198,7 @@ def preemptions(trace, upto):
     return sum(1 for (ne, c, rse, _) in trace[:upto] if rse and c != 0)
 
 
-def explore(make_bodies, judge, bound, codes, shard=(0, 1), max_execs=None):
+def explore(make_bodies, judge, bound, codes, shard=(0, 1), max_execs=None, fine=None):
     """Iterative-context-bounded DFS.
 
     make_bodies() -> (bodies, ctxobj): fresh family for every execution.
@@ -158,7 +223,7 @@ def explore(make_bodies, judge, bound, codes, shard=(0, 1), max_execs=None):
             ne, _, rse, sig = ptrace[pi]
             prefix = [(t[1], (t[0], t[2], t[3])) for t in ptrace[:pi]] + [(palt, (ne, rse, sig))]
         bodies, ctxobj = make_bodies()
-        ex = Execution(prefix, codes)
+        ex = Execution(prefix, codes, fine=fine)
         results, trace = ex.run(bodies)
         if ex.error is not None and isinstance(ex.error, Divergence):
             out["divergences"] += 1
@@ -199,9 +264,9 @@ def explore(make_bodies, judge, bound, codes, shard=(0, 1), max_execs=None):
     return out
 
 
-def replay_schedule(make_bodies, judge, choices, codes):
+def replay_schedule(make_bodies, judge, choices, codes, fine=None):
     bodies, ctxobj = make_bodies()
-    ex = Execution([(c, None) for c in choices], codes)
+    ex = Execution([(c, None) for c in choices], codes, fine=fine)
     results, trace = ex.run(bodies)
     details = judge(results, ctxobj)
     if ex.error is not None:
